@@ -108,6 +108,22 @@ Fixpoint assoc_comp (k : string) (l : list (string * (dref * dty))) : option (dr
 
 Definition is_lit (r : dref) : bool := match r with DL _ _ => true | _ => false end.
 
+(* the parameter names of an already defined function *)
+Definition get_params (lab : Z) : DM (list string) :=
+  fun s => match find (fun df => Z.eqb (df_label df) lab) (ds_funs s) with
+           | Some df => Some (df_params df, s)
+           | None => None
+           end.
+Fixpoint bind_kw (params : list string) (named : list (string * dref)) : option (list dref) :=
+  match params with
+  | [] => Some []
+  | p :: rest =>
+      match assoc p named, bind_kw rest named with
+      | Some r, Some l => Some (r :: l)
+      | _, _ => None
+      end
+  end.
+
 Definition drhs (ρ : denv) (r : rhs) : DM (dref * dty) :=
   match r with
   | RLit b v => dret (DL b (match b with BBool => if Z.eqb v 0 then 0 else 1 | _ => v end), TS (MConst, b))
@@ -197,7 +213,15 @@ Definition drhs (ρ : denv) (r : rhs) : DM (dref * dty) :=
       end
   | RCall f args kwargs =>
       ddo g <- getf ρ f; ddo vs <- getvs ρ args; ddo ks <- getvs ρ (map snd kwargs);
-      ddo n <- node (KCall (fst g)) (map fst vs ++ map fst ks); dret (n, snd g)
+      (* keyword arguments take the position of the parameter they name, whatever the order they are written in *)
+      ddo ps <- get_params (fst g);
+      match bind_kw (skipn (List.length vs) ps) (combine (map fst kwargs) (map fst ks)) with
+      | Some ordered =>
+          if Nat.eqb (List.length vs + List.length ks) (List.length ps)
+          then ddo n <- node (KCall (fst g)) (map fst vs ++ ordered); dret (n, snd g)
+          else dfail
+      | None => dfail
+      end
   end.
 
 Definition fresh_label : DM Z :=
